@@ -133,11 +133,16 @@ def run_case(work, idx, c):
     src = os.path.join(root, "a", "b", "proj")
     cli.make_tree(src, {"src/lib.rs": SRC})
     disc = c["disc"]
-    cwd = {"flag": os.path.join(root, "elsewhere"), "cwd": root, "parent": os.path.join(root, "a"), "grandparent": os.path.join(root, "a", "b")}[disc]
+    cwd = {"flag": os.path.join(root, "elsewhere"), "cwd": root, "parent": os.path.join(root, "a"), "grandparent": os.path.join(root, "a", "b"),
+           "flag_over_cwd": os.path.join(root, "elsewhere"), "flag_over_parent": os.path.join(root, "elsewhere", "sub")}[disc]
     os.makedirs(cwd, exist_ok=True)
-    cfg_path = os.path.join(root, "conf", "custom.toml") if disc == "flag" else os.path.join(root, "typeshare.toml")
+    by_flag = disc.startswith("flag")
+    cfg_path = os.path.join(root, "conf", "custom.toml") if by_flag else os.path.join(root, "typeshare.toml")
     os.makedirs(os.path.dirname(cfg_path), exist_ok=True)
     open(cfg_path, "w").write(toml_text(c["file"]))
+    if c.get("decoy"):
+        # a different typeshare.toml that discovery alone would find; every setting has another value there
+        open(os.path.join(root, "elsewhere", "typeshare.toml"), "w").write(toml_text({s: "decoy" + s.replace("_", "") for s in SETTINGS}, with_tables=False))
     opts = []
     for s in SETTINGS:
         if c["cli"][s]:
@@ -149,7 +154,7 @@ def run_case(work, idx, c):
         if lang == "go" and not eff["go_package"]:
             continue   # typeshare refuses Go without a package
         out = os.path.join(root, "out." + common.EXT[lang])
-        args = ["-l", lang] + (["-c", cfg_path] if disc == "flag" else []) + opts + ["-o", out, src]
+        args = ["-l", lang] + (["-c", cfg_path] if by_flag else []) + opts + ["-o", out, src]
         r = cli.run_cli(args, cwd=cwd, timeout=20)
         if r["exit"] != "ok":
             raise ToolError(f"typeshare failed in a C20 cell ({lang}): {r['stderr'][-300:]}")
@@ -187,8 +192,8 @@ def run_case(work, idx, c):
 
 def run(chk):
     thorough = chk.tier == "thorough"
-    chk.rule = ("spec->impl: " + ("all 1024 cells x 4 discoveries" if thorough else "a 1-in-4 systematic slice (every 2-setting combination covered) "
-                "of the 1024 cells with -c, plus 64 cells per ancestor discovery") + "; per cell: generation in swift/kotlin/scala/go/typescript, -g, "
+    chk.rule = ("spec->impl: " + ("all 1024 cells x 6 discoveries (-c; cwd / parent / grandparent; -c next to a decoy typeshare.toml in cwd / parent)" if thorough else "a 1-in-4 systematic slice (every 2-setting combination covered) "
+                "of the 1024 cells with -c, plus 64 cells per ancestor discovery and 64 cells of -c next to a decoy typeshare.toml in the working directory") + "; per cell: generation in swift/kotlin/scala/go/typescript, -g, "
                 "reload of the generated file, second -g. Each run is an event judged by Trace_C20. distinct = (cell, discovery, run kind, language).")
     chk.assumptions = ["settings are read back from generated code by the extractors (type-name prefix, package line) and from the TOML with tomllib",
                        "package values are written as com.<value> so that Scala/Kotlin get a dotted package"]
@@ -208,6 +213,7 @@ def run(chk):
                 sl.append(c)
         for d in ("cwd", "parent", "grandparent"):
             sl += [dict(c, disc=d) for c in flag[7::16]]
+        sl += [c for c in cases if c["disc"] == "flag_over_cwd"][5::16]
         cases = sl
     chk.sample({"cell": {k: cases[len(cases) // 2][k] for k in ("cli", "file", "disc", "effective")}})
     work = common.scratch("c20")
